@@ -307,6 +307,9 @@ Section NF.
         match out_name (c_decompress cf) op with
         | None => fatal_res (output_init cf [] op st s) "nosuffix" s (m_fs s)
         | Some q =>
+            if c_force cf && output_init_checks_same_file && same_file (m_fs s) q st
+            then exists s', output_init cf [] op st s = Ret None s' /\ m_fs s' = m_fs s /\ fr true s s'
+            else
             let f1 := if c_force cf then fst (sys_unlink (m_fs s) q) else m_fs s in
             match sys_creat_excl f1 q (N.land (st_mode st) open_out_mode_mask) (c_uid cf) (c_gid cf) (c_now cf) with
             | (f2, SOk iout) =>
@@ -321,6 +324,8 @@ Section NF.
     unfold output_init. destruct (c_outmode cf); try reflexivity.
     destruct (out_name (c_decompress cf) op) as [q|].
     2:{ apply fatal_nf'; reflexivity. }
+    cbv beta. destruct (c_force cf && output_init_checks_same_file && same_file (m_fs s) q st) eqn:Esf.
+    { eexists. split; [reflexivity|]. split; [reflexivity|]. frt. }
     cbv zeta. fold (creat_part q st).
     assert (Hs : exists s2, ((if c_force cf
                               then r <- sys [] false KUnlink (fun f => sys_unlink f q);;
@@ -485,6 +490,13 @@ Section NF.
         2:{ destruct HO as (s3 & R3 & E3 & H3). rewrite (bind_Stop _ _ _ _ _ _ R3).
             exists s3. split; [reflexivity|]. rewrite O2 in E3. cbn in E3.
             split; [congruence|]. split; [congruence|]. intros d Hd. discriminate. }
+        destruct (c_force cf && output_init_checks_same_file && same_file (m_fs s) q st) eqn:Esf.
+        { destruct HO as (s3 & R3 & E3 & F3). rewrite (bind_Ret _ _ _ _ _ R3). cbv beta iota.
+          rewrite (bind_Ret (ret (DSkipped "open-out")) _ s3 _ s3 eq_refl).
+          destruct (tail_nf (DSkipped "open-out") s3) as (s4 & R4 & E4 & W4 & B4 & H4);
+            try (unfold fr in F3; intuition congruence).
+          rewrite R4. exists s4. split; [reflexivity|].
+          cbn [e_fs e_warn e_end]. unfold fr in F3. rewrite ?orb_true_r in *. intuition congruence. }
         cbv zeta in HO.
         destruct (sys_creat_excl (if c_force cf then fst (sys_unlink (m_fs s) q) else m_fs s) q
                     (N.land (st_mode st) open_out_mode_mask) (c_uid cf) (c_gid cf) (c_now cf)) as [f2 [iout|e|]].
